@@ -42,6 +42,8 @@ def check(ctx):
             lines.append("%s buf=%d" % (l, b))
     ctx.coverage["exhaustive"] = True
     fw.run_suite(ctx, exe, "S-gen/dump-sizes", lines, "frame serialisation")
+    # the same after short call sequences on every kind, into buffers around the interesting sizes
+    fw.run_suite(ctx, exe, "S-gen/api-sequences-dump", c03.api_lines(random.Random(ctx.seed + 6), 60 if ctx.tier == "quick" else 1000, bufs=True), "frame serialisation after a short call sequence")
     tl = []
     for _ in range(40 if ctx.tier == "quick" else 300):
         L = rnd.choice([0, 1, 2, 3, 4, 10, 255, 256, 300])
